@@ -266,7 +266,7 @@ func runC11(p *core.Prog, r *core.Report, tier string) {
 				r.Undecide("C11.a", cbase+"|relay-arg", p.Pos(call.Pos()), "cannot identify the relay argument")
 				continue
 			}
-			coll, _, isElem := core.RangeElem(relayV)
+			coll, isElem := core.LoopElem(relayV)
 			okElem := isElem && ds.D(coll).HasFieldSuffix("Relays")
 			r.Check(okElem, "C11.a", cbase+"|relay-arg", p.Pos(call.Pos()), "builder called with the element of proposerConfig.Relays being iterated", "builder called with "+ds.D(relayV).String()+", not the relay being iterated")
 			// proposer config resolved for the same account and pubkey
@@ -311,6 +311,45 @@ func runC11(p *core.Prog, r *core.Report, tier string) {
 		}
 	}
 	r.Floor("C11.a per-relay builder call sites", nCallers, 1)
+
+	// (g) every validator a registration round handles is recorded as controlled, whatever happens to its
+	// registrations afterwards: the mark in the controlled set is passed on every path through the per-account
+	// function (a validator left out is treated as somebody else's, and registrations supplied from outside
+	// for it are forwarded to the relays with their fee recipient)
+	nG := 0
+	for _, f := range relayFns {
+		k := -1
+		for i, prm := range f.Params {
+			if prm.Name() == "controlledValidators" {
+				k = i
+			}
+		}
+		if k < 0 {
+			continue
+		}
+		var marks []ssa.Instruction
+		core.EachInstr(f, func(in ssa.Instruction) {
+			if mu, ok := in.(*ssa.MapUpdate); ok && mu.Map == ssa.Value(f.Params[k]) {
+				marks = append(marks, in)
+			}
+		})
+		nG++
+		if len(marks) == 0 {
+			r.Violate("C11.h", core.FnKey(f)+"|marks-controlled", p.Pos(f.Pos()), "the validator is never recorded in the controlled set")
+			continue
+		}
+		w := core.PathQuery{Fn: f, Target: core.IsReturn, Avoid: func(in ssa.Instruction) bool {
+			for _, m := range marks {
+				if in == m {
+					return true
+				}
+			}
+			return false
+		}}.Find()
+		r.Check(w == nil, "C11.h", core.FnKey(f)+"|marks-controlled", p.Pos(marks[0].Pos()), "the validator is recorded as controlled on every path",
+			"the function can return without having recorded the validator as controlled (e.g. when its settings or signatures fail): registrations supplied from outside for that validator are then forwarded to the relays", p.WitnessText(w)...)
+	}
+	r.Floor("C11.h per-account functions filling the controlled set", nG, 1)
 
 	// ---- (f) preparations ----
 	nPrep := 0
